@@ -145,12 +145,12 @@ func c13Exec(w *cvxWorld, j *cvxJob) bool {
 		w.plans.Store(j.id, &cvxPlan{Status: status, Hdr: hdr, Body: 1})
 		defer w.plans.Delete(j.id)
 	}
-	got, err := w.doHTTP(cs, j.id)
+	got, rid, err := w.doHTTP(cs, j.id)
 	if err != nil {
 		w.errorf("case %d: %v (%s)", j.id, err, c13Describe(cs))
 		return false
 	}
-	seen := w.take(j.id)
+	seen := w.take(rid)
 	loc := got.Header.Values("Location")
 	// was the request answered with a redirect to itself?  (only judged where the spec passed a redirect over)
 	passedOver := cs.Out.Kind != "redirect" && len(cs.C.Routes) > 0 && cs.C.Routes[0].Code.Num >= 300 && cs.C.Routes[0].Code.Num <= 399
